@@ -450,6 +450,24 @@ static std::string exec_line(World*& W, long lineno, const std::string& line) {
         J.kvraw("op", joperator(*W->Storage)); return J.done();
     }
     if (cmd == "symmop") { W->symmops.push_back(read_operator(t)); J.kvi("n", W->symmops.size()); return J.done(); }
+    if (cmd == "symmopL") {   // like symmop, but factors are written as (dag, label, orbital, spin) and translated with the library's own index table
+        Operator out;
+        long m = t.l();
+        for (long k = 0; k < m; k++) {
+            MelemType coef = t.m();
+            long len = t.l();
+            Operator mono; bool empty = true;
+            for (long q = 0; q < len; q++) {
+                long dag = t.l(); std::string lab = unhex(t.word()); long orb = t.l(), spin = t.l();
+                ParticleIndex idx = W->ic().getIndex(lab, (unsigned short)orb, (unsigned short)spin);
+                if (!W->ic().checkIndex(idx)) throw std::runtime_error("runner: symmopL refers to a non-existent mode");
+                Operator f = dag ? OperatorPresets::c_dag(idx) : OperatorPresets::c(idx);
+                if (empty) { mono = f; empty = false; } else mono *= f;
+            }
+            if (empty) out += coef; else out += mono * coef;
+        }
+        W->symmops.push_back(out); J.kvi("n", W->symmops.size()); return J.done();
+    }
     if (cmd == "symm") {
         std::string mode = t.word();
         W->Symm.reset(new Symmetrizer(W->ic(), W->st()));
